@@ -288,8 +288,21 @@ def ob_formula(fname, d, field, r1, r2):
 
     def oracle(i):
         return F(i["rho"], i["sigma"])
+    def witness():
+        # mixed storage: one operand held in a REAL (float64) array, the other genuinely complex - both orders
+        rng = np.random.default_rng(7 * d + r1 + 3 * r2)
+        out = []
+        for _ in range(2):
+            A = rng.integers(-4, 5, size=(d, max(r1, 2 if d > 1 else 1))) / 4.0
+            B = (rng.integers(-4, 5, size=(d, max(r2, 2 if d > 1 else 1))) + 1j * rng.integers(-4, 5, size=(d, max(r2, 2 if d > 1 else 1)))) / 4.0
+            if np.trace(A @ A.T) == 0 or np.trace(B @ B.conj().T) == 0:
+                continue
+            re_ = (A @ A.T) / np.trace(A @ A.T)
+            cx_ = (B @ B.conj().T) / np.trace(B @ B.conj().T).real
+            out += [{"rho": re_.astype(float), "sigma": cx_}, {"rho": cx_, "sigma": re_.astype(float)}]
+        return out
     return Obligation(f"{fname}.equals_documented_formula", cfg, build, call, oracle, assume=psd_kernel_assume,
-                      valid=valid_density_pair,
+                      valid=valid_density_pair, witness=witness if field == "complex" else None,
                       weight=d * d * (3 if field == "complex" else 1) * (20 if fname == "sub_fidelity" else 1))
 
 
@@ -386,8 +399,23 @@ def ob_reject(fname, d, kind):
             for v in np.asarray(m).flat:
                 out += [v.real <= 10, v.real >= -10, v.imag <= 10, v.imag >= -10]
         return out
+    def witness():
+        # (valid, invalid), (invalid, valid), (valid, valid): each argument on its own must be validated
+        diag = {2: [0.75, 0.25], 3: [0.5, 0.25, 0.25], 4: [0.25, 0.25, 0.25, 0.25]}.get(d, [1.0 / d] * d)
+        good = np.diag(np.array(diag, dtype=complex))
+        good[0, 1], good[1, 0] = 0.125j, -0.125j
+        good2 = np.diag(np.array(diag[::-1], dtype=complex))
+        good2[0, 1], good2[1, 0] = 0.125, 0.125
+        neg = np.diag(np.array([1.5, -0.5] + [0.0] * (d - 2), dtype=complex))
+        big = 2 * good
+        nonh = good.copy()
+        nonh[0, 1] = 0.375
+        out = [{"rho": good, "sigma": good2}]
+        for bad in (neg, big, nonh):
+            out += [{"rho": good, "sigma": bad}, {"rho": bad, "sigma": good2}]
+        return out
     return Obligation(f"{fname}.rejects_exactly_the_non_density_inputs", cfg, build, call, oracle, post=post, exc_post=exc_post,
-                      assume=assume, tv=False, neg_control=False, max_paths=400, weight=d * d)
+                      assume=assume, tv=False, neg_control=False, max_paths=400, weight=d * d, witness=witness)
 
 
 def ob_shape_mismatch(fname, d1, d2):
